@@ -243,7 +243,7 @@ def observe_new(dm, nd, mode):
                 with warnings.catch_warnings(record=True) as w:
                     warnings.simplefilter("always")
                     new = obj.evaluate_new_data(nd)
-                res = {"matrix": mat(new.design_matrix), "warn": len(w) > 0}
+                res = {"matrix": mat(new.design_matrix), "warn": formulae_warned(w)}
                 if part == "group":
                     res["slices"] = [[k, s.start, s.stop] for k, s in new.slices.items()]
                     res["factors_with_new_levels"] = list(new.factors_with_new_levels)
@@ -253,6 +253,12 @@ def observe_new(dm, nd, mode):
     finally:
         formulae.config["EVAL_UNSEEN_CATEGORIES"] = old
     return out
+
+
+def formulae_warned(records):
+    """formulae's own unseen-level warning (pandas deprecation warnings raised underneath are
+    environment noise and are not counted)"""
+    return any("not present in the original data set" in str(x.message) for x in records)
 
 
 def strip(obs):
